@@ -11,6 +11,12 @@ pub assume_specification<I: core::slice::SliceIndex<str>>[str::get_unchecked::<I
 pub assume_specification<I: core::slice::SliceIndex<str>>[<str as core::ops::Index<I>>::index](s: &str, i: I) -> (r: &I::Output)
     ensures i.index_postcondition(s, r);
 
+// not used by the current tree; specified so that plausible rewrites stay within the verifier's reach
+pub assume_specification<I: core::slice::SliceIndex<str>>[str::get::<I>](s: &str, i: I) -> (r: Option<&I::Output>)
+    ensures
+        i.in_bounds(s) ==> (r matches Some(x) && i.index_postcondition(s, x)),
+        !i.in_bounds(s) ==> r is None;
+
 // X2: derived Clone of the runtime types: assumed to return an equal value.
 #[verifier::external_body]
 pub fn clone_state<'a>(s: &ParseState<'a>) -> (r: ParseState<'a>)
